@@ -33,6 +33,7 @@ MODEL = 'logpipe'
 HANG_BOUND = scen_proc.HANG_BOUND
 NAMES = ['cfg.a', 'cfg.b', 'cfg.c']            # parent levels: DEBUG, ERROR, inherited from root
 LEVELS = [10, 20, 30, 40]
+LEVELS_LOW = [5, 10, 30, 40]                   # with a custom level below DEBUG (cases with low=True: parent root level 1)
 
 
 # ----------------------------------------------------------------------------------------------
@@ -46,6 +47,8 @@ def _mk(rng, n, size, **kw):
     c.update(kw)
     if c['late'] and c['ending'] in ('ret', 'exit0'):
         c['ending'] = 'raise'
+    if c.get('low'):
+        c['root_level'] = 1
     return c
 
 
@@ -61,6 +64,8 @@ def boundary_cases(rng, tier):
     out.append(_mk(rng, 300, 500, ending='raise', late=True))
     out.append(_mk(rng, 0, 10, ending='raise', late=True))
     out.append(_mk(rng, 1500, 100, ending='exitstr', late=True))
+    out.append(_mk(rng, 40, 100, low=True))
+    out.append(_mk(rng, 3, 10, low=True, ending='raise'))
     return out
 
 
@@ -70,7 +75,7 @@ def gen_case(rng: random.Random, tier: str):
     size = rng.choice([0, 10, 100, 100, 1000, 5000, 70000])
     if n * size > (40_000_000 if big else 8_000_000):
         size = 100
-    c = _mk(rng, n, size, late=rng.random() < 0.2)
+    c = _mk(rng, n, size, late=rng.random() < 0.2, low=rng.random() < 0.15)
     if rng.random() < 0.3 and n:
         c['sizes'] = [rng.choice([0, 10, 100, 3000, 70000 if n <= 60 else 100]) for _ in range(8)]
     return c
@@ -82,15 +87,21 @@ def servlet_case(rng, n, size):
                 calls=rng.choice([1, 3, 8]))
 
 
+def pool_case(rng, n, size):
+    c = servlet_case(rng, n, size)
+    c['via'] = 'pool'
+    return c
+
+
 def n_total(case):
-    if case['via'] == 'servlet':
+    if case['via'] in ('servlet', 'pool'):
         return case['n'] * case['calls']
     return case['n'] + (1 if case['late'] else 0)
 
 
 def rec_name_level(case, i):
     k = (i * 7 + case['lvl_seed']) % 12
-    return NAMES[k % 3], LEVELS[(k // 3 + i) % 4]
+    return NAMES[k % 3], (LEVELS_LOW if case.get('low') else LEVELS)[(k // 3 + i) % 4]
 
 
 def passes(case, i):
@@ -105,7 +116,8 @@ def expected(case):
 
 def case_class(case):
     vol = n_total(case) * (case['size'] if not case.get('sizes') else sum(case['sizes']) // len(case['sizes']))
-    return f"{case['via']}:{'small' if vol < 30000 else 'beyond-pipe'}:{case['ending']}{':late' if case['late'] else ''}"
+    return (f"{case['via']}:{'small' if vol < 30000 else 'beyond-pipe'}{'-lowlevel' if case.get('low') else ''}:"
+            f"{case['ending']}{':late' if case['late'] else ''}")
 
 
 def nontrivial(case, res):
@@ -292,6 +304,8 @@ def _inner(case):
 
     if case['via'] == 'servlet':
         return _inner_servlet(case, out, handled, t0)
+    if case['via'] == 'pool':
+        return _inner_pool(case, out, handled, t0)
 
     from mpservice.multiprocessing import Process
     if case['late']:
@@ -364,6 +378,47 @@ def _inner_servlet(case, out, handled, t0):
             with Server(ProcessServlet(scen_log.LogWorker, case=case)) as server:
                 for x in range(case['calls']):
                     assert server.call(x) == x
+            box.append(('ret', None))
+        except BaseException as e:  # noqa
+            box.append(('raise', e))
+        box.append(len(handled))
+
+    th = threading.Thread(target=body, daemon=True)
+    th.start()
+    th.join(HANG_BOUND + 20)
+    out['joined'] = not th.is_alive()
+    if out['joined']:
+        out['at_join'] = box[1]
+        out['ending'] = f'{box[0][0]}:{box[0][1]!r}'[:80]
+        out['ending_ok'] = box[0][0] == 'ret'
+    _settle(handled)
+    out['exitcode'] = 0 if out['joined'] else None
+    out['handled'] = list(handled)
+    out['t_total'] = round(time.time() - t0, 3)
+    return out
+
+
+def pool_task(case, x):
+    n = case['n']
+    _emit(case, x * n, (x + 1) * n)
+    return x
+
+
+def _inner_pool(case, out, handled, t0):
+    """one-worker pool built on mpservice's spawn context: the worker is an mpservice Process;
+    tasks log; close() + join() let the worker end by itself"""
+    import threading
+    from mpservice.multiprocessing import Pool
+    box = []
+
+    def body():
+        try:
+            pool = Pool(1)
+            scen_proc._KEEP.append(pool)
+            got = [pool.apply(pool_task, (case, x)) for x in range(case['calls'])]
+            assert got == list(range(case['calls']))
+            pool.close()
+            pool.join()
             box.append(('ret', None))
         except BaseException as e:  # noqa
             box.append(('raise', e))
